@@ -629,7 +629,7 @@ pub fn strat_seq(t: Tier) -> BoxedStrategy<SeqCase> {
         .boxed()
 }
 
-fn check_seq(case: &SeqCase, ctx: &mut Ctx) -> Result<(), Fail> {
+pub fn check_seq(case: &SeqCase, ctx: &mut Ctx) -> Result<(), Fail> {
     let mut model: Vec<Mat> = case.pool.clone();
     let mut real: Vec<DenseMatrix<f64>> = case.pool.iter().map(|m| <DenseB as Build<f64>>::build(m)).collect();
     let mut applied = 0;
